@@ -103,6 +103,7 @@ where
             Some(format!("{} at {}", m, l))
         }
     };
+    kernel::try_with(|k| k.trace_tasks());
     let kernel = kernel::uninstall().expect("kernel present");
     let result = slot.lock().unwrap().take();
     SimOutcome { result, kernel, harness_panic }
